@@ -2,6 +2,7 @@ import Solvor.Flow.Basic
 import Solvor.Flow.EK
 import Solvor.Flow.SSP
 import Solvor.Flow.Assignment
+import Solvor.Flow.PairCost
 /-! Flow: executable models (no Mathlib imports).
 `EK` = max_flow mirror + max-flow checker (C08); `SSP` = min-cost-flow checkers + certifying
 successive-shortest-paths reference, `Assignment` = the network of solve_assignment (C09). -/
